@@ -6,7 +6,8 @@ from univers.version_constraint import VersionConstraint
 MODULES = ["Univers.Props.C09", "Univers.Props.Schemes"]
 LEVEL = "proof"
 # function-level tie (translator + agreement theorems): see runner step 3a
-TIE_THEOREMS = {"Univers.Vers.GenConInvertThm": ["Univers.Gen.LayerB.con_is_star_eq", "Univers.Gen.LayerB.con_invert_eq"], "Univers.Vers.GenRangeInvertThm": ["Univers.Gen.LayerB.range_is_star_eq", "Univers.Gen.LayerB.range_invert_eq"]}
+TIE_THEOREMS = {"Univers.Vers.GenLayerBExact": ["Univers.Gen.LayerB.py_invert_complement"],
+                "Univers.Vers.GenConInvertThm": ["Univers.Gen.LayerB.con_is_star_eq", "Univers.Gen.LayerB.con_invert_eq"], "Univers.Vers.GenRangeInvertThm": ["Univers.Gen.LayerB.range_is_star_eq", "Univers.Gen.LayerB.range_invert_eq"]}
 RULE = ("bounded-exhaustive: every comparator sequence up to length L on version-sorted distinct versions; the real "
         "range.invert() is compared constraint by constraint with the Lean model, its membership with the complement "
         "of the spec `denote` at every probe position, and invert().invert() with the original; single constraints: "
